@@ -332,13 +332,63 @@ def _duration_offsets(ctx):
     return n
 
 
+rule("C06.p", "what the set-up converts, its helpers use converted: when setup_optim_problem computes a local of the same name as an attribute "
+              "kept from the constructor (durations and ramp lengths converted to grid steps, rates to volumes per step) and hands it to a helper, "
+              "the helper does not go back to `self.<name>` - that is the value in the user's units (ramp_freq / main time unit)", floor=0,
+     props=["C06", "C12"])
+
+
+def _shadowed_attrs(ctx):
+    p = ctx.p
+    from .serialization import self_attr_writes
+    n = 0
+    for ci in sorted(p.classes.values(), key=lambda c: c.name):
+        if not p.is_subclass(ci, "CHPAsset"):
+            continue
+        setup = ci.methods.get("setup_optim_problem")
+        init = None
+        for c in p.mro(ci):
+            if "__init__" in c.methods and init is None:
+                init = c.methods["__init__"]
+        if setup is None or init is None:
+            continue
+        kept = {a for a, _, _ in self_attr_writes(init)}
+        local = set()
+        for st in au.walk_stmts(setup.body):
+            if isinstance(st, (ast.Assign, ast.AugAssign)):
+                for t0 in au.stmt_targets(st):
+                    local |= set(au.target_names(t0))
+        shadow = kept & local
+        if not shadow:
+            continue
+        for m in sorted(ci.methods.values(), key=lambda f: f.name):
+            if m.name in ("__init__", "setup_optim_problem") or m.parent is not None:
+                continue
+            params = {q.name for q in m.params}
+            for x in au.walk_local(m.node, include_self=False):
+                if isinstance(x, ast.Attribute) and isinstance(x.ctx, ast.Load) and au.path(x) and au.path(x).startswith("self.") and x.attr in shadow \
+                        and au.path(x) == "self." + x.attr:
+                    n += 1
+                    ctx.ob("C06.p", m, au.short(p.enclosing_stmt(x), 70), False,
+                           "%s reads self.%s, the value as the user gave it (%s), although %s.setup_optim_problem computes a converted local `%s` "
+                           "(grid steps / volume per step) for exactly this purpose%s: with ramp_freq or main time unit different from the grid "
+                           "frequency the two differ - an hourly start ramp of 2 steps is 8 steps on a 15 min grid, the relief from the ramp limit covers "
+                           "2 of them and the plant cannot start (infeasible)" % (
+                               m.qualname, x.attr, "constructor units", ci.name, x.attr,
+                               " and hands it over as parameter" if x.attr in params else ""), node=x,
+                           key="%s reads self.%s" % (m.name, x.attr))
+    if n == 0:
+        ctx.ob("C06.p", "CHPAsset", "helpers use the converted locals", True, ok_detail="no helper reads an attribute that the set-up shadows with a converted local")
+
+
 rule("C06.m", "an aggregated implication row (+1 on a slice of k boolean variables, -c on one boolean variable, >= 0: 'if y then all of the "
               "slice') has c <= k for every pass of the loop that builds it - checked at the first and the last pass, where slices are cut "
               "by the horizon", floor=1)
 
 
-@analysis("chp", ["C06.a", "C06.b", "C06.c", "C06.h", "C06.i", "C06.k", "C06.m", "C06.n"])
+@analysis("chp", ["C06.a", "C06.b", "C06.c", "C06.h", "C06.i", "C06.k", "C06.m", "C06.n", "C06.p"])
 def run(ctx):
+    _shadowed_attrs(ctx)
     n_n = _duration_offsets(ctx)
     ctx.require(n_n >= 3, "fewer than 3 duration-driven offsets found in the CHP classes", rules=["C06.n"])
     _ramp_in_progress(ctx)
